@@ -19,6 +19,7 @@ REGISTRY = {
     "T5eof": ("T5eof.v", "t5_eof", "gen"),
     "T5rot": ("T5rot.v", "t5_rot", "gen"),
     "T5flag": ("T5flag.v", "t5_flag", "gen"),
+    "T5eeof": ("T5eeof.v", "t5_eeof", "gen"),
     "T5pop": ("T5pop.v", "t5_pop", "gen"),
     "T5opa": ("T5opa.v", "t5_opa", "gen"),
     "T5whiten": ("T5whiten.v", "t5_whiten", "gen"),
